@@ -3,7 +3,8 @@ import itertools
 
 from . import qgen as Q
 from . import c01 as BASE
-from .common import gen_container
+from . import sx as SX
+from .common import gen_container, deep, exc_name
 
 ID = "C02"
 PROP_FILE = "props/C02.v"
@@ -77,7 +78,47 @@ def gen(rng, tier):
 
 text_of = BASE.text_of
 to_sx = BASE.to_sx
-impl = BASE.impl
+
+
+def impl(case):
+    """the compiled query is first used on the same document OBJECT holding other contents (values rotated), the object is
+    then given the case's contents in place and the query is applied again: `$` must denote the query argument as it is now"""
+    import jsonpath
+    text = text_of(case)
+    out = {"text": text}
+    try:
+        c = jsonpath.compile(text)
+    except Exception as e:  # noqa: BLE001
+        out["compile"] = ["err", exc_name(e)]
+        return out
+    doc = deep(case["doc"])
+    if isinstance(doc, dict) and len(doc) > 0:
+        ks = list(doc.keys())
+        vs = [deep(doc[k]) for k in ks]
+        obj = dict(zip(ks, vs[1:] + vs[:1]))
+        obj["zz"] = 1
+    elif isinstance(doc, list) and len(doc) > 0:
+        obj = [deep(x) for x in reversed(doc)] + [1]
+    else:
+        obj = doc
+    if obj is not doc:
+        try:
+            list(c.finditer(obj))
+        except Exception:  # noqa: BLE001
+            pass
+        if isinstance(obj, dict):
+            obj.clear()
+            obj.update(doc)
+        else:
+            obj[:] = doc
+    try:
+        out["matches"] = BASE.show_matches(list(c.finditer(obj)))
+    except Exception as e:  # noqa: BLE001
+        out["matches"] = ["err", exc_name(e)]
+    out["doc_unchanged"] = SX.canon(obj) == SX.canon(case["doc"])
+    return out
+
+
 decode = BASE.decode
 project = BASE.project
 classify_base = BASE.classify
